@@ -178,6 +178,49 @@ fn outcome_of(run: &Run<Value>) -> Result<Value, String> {
 
 static ECO_LOCK: std::sync::Mutex<()> = std::sync::Mutex::new(());
 
+/// Which loopback port (of the definition's default, the documented default, 3000, 3001) an Eco query without a port connects to.
+/// None: the ports could not all be bound here (the comparison is skipped).
+pub fn eco_destination_without_port(via_generic: bool) -> Option<Vec<u16>> {
+    let g = gamedig::GAMES.get("eco")?;
+    let lo: std::net::IpAddr = std::net::Ipv4Addr::LOCALHOST.into();
+    let mut ports = vec![g.default_port, crate::default_ports::default_port("eco").unwrap_or(0), 3000, 3001];
+    ports.sort();
+    ports.dedup();
+    let _guard = ECO_LOCK.lock();
+    let listeners: Vec<(u16, std::net::TcpListener)> = ports.iter().filter_map(|p| std::net::TcpListener::bind((lo, *p)).ok().map(|l| (*p, l))).collect();
+    if listeners.len() != ports.len() {
+        return None;
+    }
+    for (_, l) in &listeners {
+        let _ = l.set_nonblocking(true);
+    }
+    let t = gamedig::protocols::types::TimeoutSettings::new(Some(std::time::Duration::from_millis(300)), Some(std::time::Duration::from_millis(300)), Some(std::time::Duration::from_millis(300)), 0).ok();
+    Some(std::thread::scope(|s| {
+        let h = s.spawn(|| {
+            let deadline = std::time::Instant::now() + std::time::Duration::from_millis(1500);
+            let mut got = Vec::new();
+            while std::time::Instant::now() < deadline && got.is_empty() {
+                for (p, l) in &listeners {
+                    if let Ok((stream, _)) = l.accept() {
+                        drop(stream);
+                        got.push(*p);
+                    }
+                }
+                std::thread::sleep(std::time::Duration::from_millis(5));
+            }
+            got
+        });
+        let _ = crate::panics::catch(|| {
+            if via_generic {
+                gamedig::query_with_timeout(g, &lo, None, t).map(|_| ())
+            } else {
+                gamedig::games::eco::query_with_timeout(&lo, None, &t).map(|_| ())
+            }
+        });
+        h.join().unwrap_or_default()
+    }))
+}
+
 pub struct C14;
 
 fn server_for(game: &str, fam: Family, behaviour: Behaviour, idx: u64) -> Box<dyn crate::wire::Responder> {
